@@ -276,7 +276,7 @@ package sstables
 //@        callres(SSTableReader.validateDataFile, 0, 0) == nil && asType(*SSTableReader, r0) == reader
 //@   call 0 of SSTableReader.validateDataFile: assert [C09:validates-the-reader-it-returns] recv == reader && reader.opts == opts && reader.index == index
 //@   ensures r1 == nil && len(readerOptions) > 0 ==> rpath(r0) == optPath(readerOptions[0])
-//@   ensures r1 == nil ==> r0 != nil
+//@   ensures r1 == nil ==> r0 != nil && rclosed(r0) == 0
 //@   ensures r1 != nil ==> r0 == nil
 //@   fresh r0
 //@   modifies nothing
@@ -706,3 +706,49 @@ package sstables
 //@        crcOf(content(r0)) == callres(SortedKeyIndex.Get, 0, 0).Checksum || callres(SortedKeyIndex.Get, 0, 0).Checksum == 0
 //@   call 0 of getValueAtOffset: assert [C03:value-of-the-entry-found] arg0 == callres(SortedKeyIndex.Get, 0, 0)
 //@   modifies nothing
+
+// ---------------------------------------------------------------------------------------------------
+// C19: closing a table reader closes everything it opened: the scanners registered by Scan, the data reader, the index.
+
+//@ iface SortedKeyIndex.Close
+//@   ensures clClosed(this)
+//@   modifies clClosed(this)
+
+//@ func (*SSTableReader).Close
+//@   props C19
+//@   ensures [C19:scanners-closed] forall j :: 0 <= j && j < len(reader.miscClosers) ==> clClosed(reader.miscClosers[j])
+//@   ensures [C19:data-reader-closed] reader.dataReader != nil ==> clClosed(reader.dataReader)
+//@   ensures [C19:v0-data-reader-closed] reader.v0DataReader != nil ==> clClosed(reader.v0DataReader)
+//@   ensures [C19:index-closed] reader.index != nil ==> clClosed(reader.index)
+//@   loop 0
+//@     invariant forall j :: 0 <= j && j < iter && j < len(reader.miscClosers) ==> clClosed(reader.miscClosers[j])
+//@   modifies clClosed(*)
+
+//@ func (SuperSSTableReader).Close
+//@   props C19
+//@   requires forall a :: 0 <= a && a < len(s.readers) ==> s.readers[a] != nil
+//@   ensures [C19:every-table-closed] forall j :: 0 <= j && j < len(s.readers) ==> rclosed(s.readers[j]) > old(rclosed(s.readers[j]))
+//@   loop 0
+//@     invariant forall j :: 0 <= j && j < iter && j < len(s.readers) ==> rclosed(s.readers[j]) > old(rclosed(s.readers[j]))
+//@     invariant forall j :: 0 <= j && j < len(s.readers) ==> rclosed(s.readers[j]) >= old(rclosed(s.readers[j]))
+//@   modifies rclosed(*)
+
+//@ func (*DiskKeyIndex).Close
+//@   props C19
+//@   requires s.reader != nil
+//@   exit [C19:index-reader-closed] called(ReadAtI.Close, 0) && r0 == callres(ReadAtI.Close, 0, 0)
+
+//@ func newSStableFullScanIterator
+//@   ensures r1 == nil && r0 != nil
+//@   fresh r0
+//@   modifies nothing
+
+//@ func (*SSTableReader).Scan
+//@   props C19
+//@   replay reader_handles
+//@   bounded reader_handles descriptors and mappings under the table directory after Close of a table reader: slice and disk index x 6 scenarios (no scan, complete scans, abandoned scans, range scans and lookups, scans failing on a data file shortened after open, double Close), counted via /proc/self/fd and /proc/self/maps
+//@   requires [current-format] reader.opts != nil && reader.index != nil && reader.v0DataReader == nil
+//@   exit [C19:scanner-registered-for-close] r1 == nil ==> len(reader.miscClosers) == old(len(reader.miscClosers)) + 1 &&
+//@        reader.miscClosers[len(reader.miscClosers) - 1] == callres(recordio.NewFileReader, 0, 0)
+//@   exit [C19:failed-open-releases-the-descriptor] called(recordio.NewFileReader, 0) && callres(recordio.NewFileReader, 0, 1) == nil &&
+//@        called(ReaderI.Open, 0) && callres(ReaderI.Open, 0, 0) != nil ==> called(ReaderI.Close, 0)
